@@ -166,8 +166,8 @@ def covered(pid, targets, f, *a):
 # catch-all (`except Exception`) nor MultipartMarkup.parse (`except Exception: self.error = exc`) can swallow it and
 # turn a hang into an ordinary 400/500.  After HANG_K hangs in one run the limit drops to HANG_FAST, so a tree that
 # hangs on a whole family of inputs costs seconds, not minutes (shrinking included).
-HANG_LIMIT = 2.0
-HANG_FAST = 0.25
+HANG_LIMIT = 1.5
+HANG_FAST = 0.1
 HANG_K = 3
 _HANGS = {'n': 0}
 
